@@ -599,6 +599,20 @@ def run_profile(profile, seed, tier, opts=None, flavor="dev-hooks", modes=7, sca
                     tfind.append({"kind": "types_differ", "base": base, "grammar_text": gt,
                                   "msg": "only one of (grammar with >Rule, grammar with the body in place) was accepted by the compiler: %s" % sorted(secs),
                                   "expected": "both or neither", "observed": sorted(secs)})
+        # one variant compiles (rustc) and the other does not: the include is not equivalent to its body in place
+        bad_uids = {c.get("uid"): c for c in compile_fail if c.get("uid") is not None}
+        for base, vs in by_base.items():
+            if "inc" in vs and "inl" in vs and ((vs["inc"] in bad_uids) != (vs["inl"] in bad_uids)):
+                which = "inc" if vs["inc"] in bad_uids else "inl"
+                try:
+                    with open(os.path.join(rundir, "g%d.ebnf" % vs["inc"]), encoding="utf-8") as f:
+                        gt = f.read()
+                except OSError:
+                    gt = ""
+                msg = (bad_uids[vs[which]].get("messages") or [""])[0][:400]
+                tfind.append({"kind": "types_differ", "base": base, "grammar_text": gt,
+                              "msg": "generated code of the %s variant does not compile while the other variant's does: %s" % ("include" if which == "inc" else "inlined", msg),
+                              "expected": "both compile", "observed": which + " fails"})
         summary["type_section_findings"] = tfind[:20]
         summary["type_sections_compared"] = tcmp
     summary["timing"] = {"A": tA - t0, "B": tB - tA, "run": tR - tB, "C": tC - tR, "total": tC - t0}
